@@ -36,9 +36,9 @@ func (*prop) Assumptions() []string {
 }
 func (*prop) MinDistinct(tier string) int64 {
 	if tier == "thorough" {
-		return 20_000
+		return 20000
 	}
-	return 5_000
+	return 3500
 }
 func (*prop) Workers(tier string) int { return 8 }
 
